@@ -93,6 +93,42 @@ pub struct MonState {
     pub tainted: bool,
     /// quote taken before a swap: (ret, prot, swap, burn, extra)
     pub quote: Option<(u128, u128, u128, u128, u128)>,
+    /// SimulateSwapOperations answer taken before a route: (return amount, pools pairwise distinct)
+    pub route_quote: Option<(u128, bool)>,
+}
+
+/// queries an instant before a transaction executes: what the monitors compare the execution with (taken by the
+/// runner itself, so that a replay recomputes them)
+pub fn pre_tx_quotes(h: &Hist, ms: &mut MonState, line: &str) {
+    ms.quote = None; ms.route_quote = None; ms.rewards_quote = None;
+    let Some(tx) = parse_tx(line) else { return };
+    match (tx.contract.as_str(), tx.kind.as_str()) {
+        ("pm", "swap") if tx.funds.len() == 1 => {
+            let r = h.query(&format!("q sim {} {} {} {}", tx.args[0], tx.funds[0].0, tx.funds[0].1, tx.args[1]));
+            let v: Vec<u128> = r.split_whitespace().skip(1).filter_map(|x| x.parse().ok()).collect();
+            if r.starts_with("ok") && v.len() == 6 { ms.quote = Some((v[0], v[3], v[2], v[4], v[5])); }
+        }
+        ("pm", "route") if tx.funds.len() == 1 => {
+            let n: usize = tx.args[0].parse().unwrap_or(0);
+            if tx.args.len() < 1 + 3 * n { return; }
+            let ops = tx.args[..1 + 3 * n].join(" ");
+            let r = h.query(&format!("q simops {} {}", tx.funds[0].1, ops));
+            let mut pools: Vec<&String> = (0..n).map(|k| &tx.args[3 + 3 * k]).collect();
+            pools.sort(); let before = pools.len(); pools.dedup();
+            if let Some(v) = r.split_whitespace().nth(1).and_then(|x| x.parse::<u128>().ok()) {
+                if r.starts_with("ok") { ms.route_quote = Some((v, pools.len() == before)); }
+            }
+        }
+        ("fm", "claim") => {
+            let r = h.query(&format!("q rewards {} {}", tx.sender, tx.args.first().map(|x| x.as_str()).unwrap_or("-")));
+            if let Some(rest) = r.strip_prefix("ok ") {
+                let mut m = BTreeMap::new();
+                if rest != "-" { for kv in rest.split(',') { if let Some((d, a)) = kv.rsplit_once(':') { m.insert(d.to_string(), a.parse::<u128>().unwrap_or(0)); } } }
+                ms.rewards_quote = Some(m);
+            }
+        }
+        _ => {}
+    }
 }
 
 /// state-only monitors, after every snapshot
@@ -455,6 +491,12 @@ pub fn tx_monitors(h: &Hist, ms: &mut MonState, b: &Obs, line: &str, res: &str, 
                     out.push(format!("mon_single_lock {}", (h.w.n(q.receiver.as_str()) == tx.sender) as u8));
                 }
             }
+        }
+    }
+    // C12: SimulateSwapOperations an instant before = the final amount of the executed route (pools pairwise distinct)
+    if tx.contract == "pm" && tx.kind == "route" {
+        if let Some((quoted, distinct)) = ms.route_quote.take() {
+            if ok { out.push(format!("mon_route_quote {} {} {}", quoted, attr(h, "return_amount").unwrap_or(0), distinct as u8)); }
         }
     }
     // C13: an executed constant-product swap (direct, or the first hop of a route) stays within the tolerance
